@@ -44,6 +44,11 @@ PROPS = {
              count_all=True),
     "C11": P(CTORS, "all named constructors, n = 0..14, all i < n, k in 0..n+2 and 63, 64, 65, 2^32, usize::MAX, "
              "all count masks for n <= 5 and structured/random 64-bit masks above"),
+    "C19": P(["random", "rand_end"],
+             "256 draws per size n = 0..12 and per thread, on 1 thread and on 4 (thorough: 16) concurrent threads, Lut and LutN: "
+             "every draw well-formed; per thread every assignment sees both values and no two assignments have equal or "
+             "complementary signatures; draws pairwise distinct for n >= 8 also across threads (false-alarm probability < 2^-200)",
+             chunk_weight=1),
     "C12": P(["t_mk", "t_val", "t_bin", "t_rel", "t_implut", "t_info", "t_all"],
              "all cubes and pairs over n <= 3 (5 thorough) with every assignment, implies_lut against all functions, "
              "constructors up to 32 variables, random 32-variable cubes with random 32-bit assignments"),
